@@ -66,7 +66,7 @@ fn part_a(ctx: &Ctx, tier: Tier) -> Report {
     // derived/recursive ones), first and last small value of each
     let es0 = corpus_all::entries();
     let reduced: Vec<usize> = (0..es0.len())
-        .filter(|i| i % tier.pick(23, 7) == 0 || ["MA", "MB", "List<u8>", "WrapList", "E1", "Tree", "S5", "S7", "BTreeMap<Int,Nat>", "BTreeMap<String,Nat>", "Vec<u8>", "Vec<Nat>"].contains(&es0[*i].name.as_str()))
+        .filter(|i| i % tier.pick(23, 7) == 0 || ["MA", "MB", "List<u8>", "WrapList", "E1", "Tree", "S5", "S7", "BTreeMap<Int,Nat>", "BTreeMap<String,Nat>", "Vec<u8>", "Vec<Nat>", "Twin#1", "Twin#2", "G<Twin#1>", "G<Twin#2>"].contains(&es0[*i].name.as_str()))
         .collect();
     drop(es0);
     let m = reduced.len() as u64;
